@@ -166,6 +166,7 @@ func C13(r *h.Run) {
 
 	// one handler set, shared by everything
 	sentinel := connect.NewError(connect.CodeNotFound, errors.New("shared sentinel"))
+	sharedRes := connect.NewResponse(&h.Raw{B: []byte("cached answer")})
 	sentinelMetaIsNil := func() bool {
 		f := reflect.ValueOf(sentinel).Elem().FieldByName("meta")
 		return !f.IsValid() || f.IsNil()
@@ -175,6 +176,10 @@ func C13(r *h.Run) {
 	mux.Handle("/verif.Svc/Unary", connect.NewUnaryHandler("/verif.Svc/Unary", func(_ context.Context, req *connect.Request[h.Raw]) (*connect.Response[h.Raw], error) {
 		res := connect.NewResponse(&h.Raw{B: append([]byte("u:"), req.Msg.B...)})
 		res.Header().Set("X-Echo", h.Hex(req.Msg.B[:minInt(len(req.Msg.B), 16)]))
+		if len(req.Msg.B) > 0 && req.Msg.B[0] == 'R' {
+			// one pre-built *Response VALUE (a cached answer) returned by every such call
+			return sharedRes, nil
+		}
 		if len(req.Msg.B) > 0 && req.Msg.B[0] == 'N' {
 			// one error VALUE returned by every such call (a package-level sentinel): the library
 			// may read it from many calls at once, it must not write to it
@@ -275,7 +280,13 @@ func C13(r *h.Run) {
 				size := sizes[lr.Intn(len(sizes))]
 				in := map[string]any{"goroutine": g, "call": k, "client": cs.name, "size": size}
 				calls.Add(1)
-				switch lr.Intn(7) {
+				switch lr.Intn(8) {
+				case 7:
+					p := payload(g, k, size, 'R') // handler answers with one shared, pre-built *Response
+					res, err := cs.unary.CallUnary(context.Background(), connect.NewRequest(&h.Raw{B: p}))
+					if err != nil || string(res.Msg.B) != "cached answer" {
+						fail("unary call answered with a shared pre-built response: wrong result", in)
+					}
 				case 6:
 					// the caller looks at the header and trailer maps it is handed BEFORE its first
 					// Receive; the handler fails before its first message (trailers-only over gRPC-Web)
@@ -478,6 +489,36 @@ func C13(r *h.Run) {
 			r.Fail(h.Failure{Key: "concurrency/cross-talk", Family: "appended_headers", What: fmt.Sprintf("%d request(s) carried a header value that another call's interceptor had appended", bad.Load()),
 				Input: map[string]any{"clients": "one per protocol, shared by 8 goroutines", "interceptor": "appends the call's id to User-Agent, Accept-Encoding and Te with Header.Add"}, Actual: firstBad.Load()})
 		}
+	}
+
+	// ---------- (2a') values the HANDLER hands to the library from many calls at once: one
+	// pre-built *Response (a cached answer), fresh for each round so that every round has a
+	// "first use"; the library may read it, not write to it ----------
+	{
+		var cur atomic.Pointer[connect.Response[h.Raw]]
+		smux := http.NewServeMux()
+		smux.Handle("/verif.Svc/Cached", connect.NewUnaryHandler("/verif.Svc/Cached", func(context.Context, *connect.Request[h.Raw]) (*connect.Response[h.Raw], error) {
+			return cur.Load(), nil
+		}, connect.WithCodec(h.ToyCodec{})))
+		lc := &h.LocalClient{Handler: smux}
+		cl := connect.NewClient[h.Raw, h.Raw](lc, "http://verif.local/verif.Svc/Cached", connect.WithCodec(h.ToyCodec{}))
+		rounds := r.N(30, 200)
+		for round := 0; round < rounds; round++ {
+			cur.Store(connect.NewResponse(&h.Raw{B: []byte("cached answer")}))
+			var wg4 sync.WaitGroup
+			startGun := make(chan struct{})
+			for g := 0; g < 8; g++ {
+				wg4.Add(1)
+				go func() {
+					defer wg4.Done()
+					<-startGun
+					_, _ = cl.CallUnary(context.Background(), connect.NewRequest(&h.Raw{B: []byte("q")}))
+				}()
+			}
+			close(startGun)
+			wg4.Wait()
+		}
+		r.Eval("shared_response", fmt.Sprint(rounds, " rounds x 8 simultaneous calls"))
 	}
 
 	// ---------- (2b) the two sides of ONE call ending it at the same instant: the transport
